@@ -25,7 +25,7 @@ META = {
                 "CPython contextvars, threading, queue, contextlib"],
 }
 
-NP = 8   # rule tags used by generated schedules
+NP = 10  # rule tags used by generated schedules
 REAL_OPS = ["@CRX", "@Hadamard", "@CNOT", "@Toffoli"]
 
 
@@ -53,9 +53,9 @@ def gen_case(rng, big=False):
         d = depth[t]
         r = rng.random()
         op = rng.randrange(K)
-        if r < 0.20 and d < 3:
+        if r < 0.18 and d < 3:
             act = ["enter"]; depth[t] += 1
-        elif r < 0.34 and d > 0:
+        elif r < 0.38 and d > 0:
             act = ["exit" if rng.random() < 0.6 else "exitexn"]; depth[t] -= 1
         elif r < 0.70:
             if local_only and d == 0:
@@ -227,7 +227,7 @@ def run(ctx):
     if getattr(ctx, "replay", None) and isinstance(ctx.replay.get("replay"), dict) and "case" in ctx.replay["replay"]:
         cases = [ctx.replay["replay"]["case"]]
     else:
-        n = 260 if ctx.tier == "quick" else 2500
+        n = 400 if ctx.tier == "quick" else 2500
         cases = [json.loads(json.dumps(c)) for c in CORPUS]
         while len(cases) < n:
             cases.append(gen_case(rng, big=(ctx.tier != "quick" and rng.random() < 0.3)))
